@@ -57,6 +57,24 @@ const TIME_TOKENS: [&str; 26] = [
 ];
 const FRACTION_TOKENS: [&str; 11] = ["FF", "FF1", "FF2", "FF3", "FF4", "FF5", "FF6", "FF7", "FF8", "FF9", "ff"];
 
+/// Day counts / year counts 0..=1100 and every power of ten +/-1 up to the limits, both signs.
+pub fn interval_width_values() -> Vec<TV> {
+    let mut widths: Vec<TV> = Vec::new();
+    let mut ks: Vec<i64> = (0..=1_100).collect();
+    let mut p10 = 10i64;
+    while p10 <= 100_000_000 { ks.extend_from_slice(&[p10 - 1, p10, p10 + 1]); p10 *= 10; }
+    ks.extend_from_slice(&[99_999_999, 100_000_000, 177_999_999, 178_000_000]);
+    for &k in &ks {
+        if k <= 100_000_000 {
+            for t in [0, US_DAY - 1] { for sg in [1i64, -1] { let u = k * US_DAY + if k == 100_000_000 { 0 } else { t }; widths.push(TV { ty: Ty::IntervalDT, raw: sg * u }); } }
+        }
+        if k <= 178_000_000 {
+            for m in [0i64, 11] { for sg in [1i64, -1] { let v = k * 12 + if k == 178_000_000 { 0 } else { m }; widths.push(TV { ty: Ty::IntervalYM, raw: sg * v }); } }
+        }
+    }
+    widths
+}
+
 pub fn run(ctx: &mut Ctx) {
     let w = world();
     let cal = &w.cal;
@@ -155,6 +173,18 @@ pub fn run(ctx: &mut Ctx) {
         let f = tv.fields();
         acc.states += 1;
         CS.with(|cs| { for k in cs { check_format(acc, idx, &tv, &f, &k.fmt, &k.toks, &k.pic); } });
+    });
+    ctx.require(&r, &["rendered"]);
+
+    // d'. field-width boundaries of the variable-width interval fields
+    let widths = interval_width_values();
+    let wr = &widths;
+    let r = ctx.sweep_each("interval_field_widths", "day counts / year counts 0..=1100 and every power of ten +/-1 up to the limits, both signs: DD, YYYY..Y and the composite layouts (field padded to at least the token width, never truncated)", widths.len() as u64, 256, |idx, acc| {
+        thread_local! { static CS: (Vec<Compiled>, Vec<Compiled>) = (compile(&["DD", "dd HH24:MI:SS.FF6", "DD;FF9"]), compile(&["YYYY", "YYY", "YY", "Y", "yyyy-MM", "Y MM"])); }
+        let tv = &wr[idx as usize];
+        let f = tv.fields();
+        acc.states += 1;
+        CS.with(|cs| { for k in if tv.ty == Ty::IntervalDT { &cs.0 } else { &cs.1 } { check_format(acc, idx, tv, &f, &k.fmt, &k.toks, &k.pic); } });
     });
     ctx.require(&r, &["rendered"]);
 
